@@ -164,7 +164,19 @@ struct G {
     namespace I = a64::Inst;
     static const uint32_t alu[] = {I::kIdAdd, I::kIdSub, I::kIdAnd, I::kIdOrr, I::kIdEor, I::kIdMul};
     static const arm::CondCode ccs[] = {arm::CondCode::kEQ, arm::CondCode::kNE, arm::CondCode::kLT, arm::CondCode::kGE, arm::CondCode::kHI, arm::CondCode::kLS};
-    switch (r.below(17)) {
+    switch (r.below(18)) {
+      case 16: {
+        // instructions with 4 and 5 operands (the last ones travel separately from the first three through Builder nodes and
+        // their serialisation): madd, and table lookups with 2..3 table registers
+        auto av = [&](uint32_t id) { OperandSpec o; o.kind = OpKind::kA64V; o.id = id; return o; };
+        uint32_t t = uint32_t(r.below(28));
+        switch (r.below(3)) {
+          case 0: inst(I::kIdMadd, {ax(areg()), ax(areg()), ax(areg()), ax(areg())}); break;
+          case 1: inst(I::kIdTbl_v, {av(uint32_t(r.below(32))), av(t), av(t + 1), av(uint32_t(r.below(32)))}); break;
+          default: inst(I::kIdTbl_v, {av(uint32_t(r.below(32))), av(t), av(t + 1), av(t + 2), av(uint32_t(r.below(32)))}); break;
+        }
+        break;
+      }
       case 15: { // logical (bit-mask) immediates: a run of ones rotated within an element, replicated over the register
         bool w = r.chance(1, 3);
         uint32_t width = w ? 32 : 64, e = 2u << r.below(w ? 5 : 6), ones = 1 + uint32_t(r.below(e - 1)), rot = uint32_t(r.below(e));
@@ -296,7 +308,7 @@ static Operand make_operand(const Program& p, const OperandSpec& o, ApplyCtx& ct
     case OpKind::kZmm: return x86::zmm(o.id);
     case OpKind::kA64X: return a64::x(o.id);
     case OpKind::kA64W: return a64::w(o.id);
-    case OpKind::kA64V: return a64::v(o.id);
+    case OpKind::kA64V: return a64::v(o.id).b16();
     case OpKind::kImm: return Imm(o.imm);
     case OpKind::kLabel: return o.id < ctx.labels.size() ? ctx.labels[o.id] : Label();
     case OpKind::kMem: {
@@ -329,7 +341,7 @@ Error apply_step(BaseEmitter& e, CodeHolder& code, const Program& p, size_t i, A
   auto label_at = [&](uint32_t idx) { return idx < ctx.labels.size() ? ctx.labels[idx] : Label(); };
   switch (s.kind) {
     case StepKind::kInst: {
-      Operand ops[4];
+      Operand ops[6];
       for (uint8_t k = 0; k < s.nops; k++) ops[k] = make_operand(p, s.ops[k], ctx);
       if (s.inst_options) e.set_inst_options(InstOptions(s.inst_options));
       if (s.extra_reg) e.set_extra_reg(x86::k(s.extra_reg));
